@@ -43,6 +43,9 @@ CLAIMS = {
     'C02': dict(
         text="Decides sibling-agreement conditions necessary for the range-coder round trip, for all inputs/configurations: clear() resets every field to what the parameter-free constructor stores; the 'no symbol yet' sentinel compared by seal / num_seal_words / is_empty / maybe_exhausted is the constant the constructors store; the two clones of the held-back-word flush (encode_symbol, seal) emit the same (first word, fill word) pairs with the same trip count; seal() writes exactly num_seal_words() words; the decoder's range/lower updates and renormalisation predicate are structurally identical to the encoder's after mapping model results to role atoms. Not decided: carry-resolution and sealing arithmetic, FIFO value identity, maybe_exhausted after the last symbol (a symmetric change of encoder and decoder, or a changed threshold on both sides, is not detected).",
         tech="reset-completeness and sentinel agreement over constructor literals; structural (DAG) sibling comparison of duplicated code and of encoder vs decoder updates; loop-summarised effect counting"),
+    'C04': dict(
+        text="Decides necessary structural conditions of the bits-back round trip for all inputs/configurations: every function that exports the ANS state applies the truncating chunker to the unmodified state (so words below the marker are never dropped); from_binary starts from the single marker bit and the raw-binary view / consuming export strip exactly one leading chunk that must equal Word::one(); from_binary can only fail with the backend's read error; the two import loops and the decoder's refill test compare the state with the same threshold and the same strictness. Not decided: encode(decode(bits)) == bits for all states (the algebra of the coding step), exactness of num_valid_bits.",
+        tech="same-source rule over all exporters; marker push/strip pairing; error-origin classification; sibling agreement of the normalisation threshold (structural predicate equality)"),
 }
 
 NA = {
